@@ -306,7 +306,7 @@ package buffer
 //@   at_call b.next.ServeHTTP {C06} same_method_and_headers: arg1.Method == req.Method && (forall k string :: header(arg1.Header, k) == header(req.Header, k))
 //@   at_call b.next.ServeHTTP {C06} body_from_the_first_byte: body == nil || body.pos == 0
 //@   at_call b.next.ServeHTTP {C07} bounded_attempts: 1 <= attempt && attempt <= 11
-//@   at_call b.next.ServeHTTP {C07,C20} fresh_capture_writer: istype(arg0, "*bufferWriter") && fresh(payload(arg0)) && asref(payload(arg0), "*bufferWriter").code == 0 && !asref(payload(arg0), "*bufferWriter").hijacked
+//@   at_call b.next.ServeHTTP {C07,C20} fresh_capture_writer: istype(arg0, "*bufferWriter") && fresh(payload(arg0)) && asref(payload(arg0), "*bufferWriter").code == 0 && !asref(payload(arg0), "*bufferWriter").hijacked && len(asref(payload(arg0), "*bufferWriter").header) == 0
 //@   at_call b.retryPredicate {C07} decided_on_this_attempt: arg0.attempt == attempt && arg0.responseCode == ite(bw.code == 0, 200, bw.code) && arg0.r == req
 //@   after_call b.next.ServeHTTP capture_writer_invariants: typeinv(bw)
 //@   at_call b.next.ServeHTTP {C07,C15,C20} capture_writer_starts_consistent: typeinv(bw)
